@@ -115,6 +115,7 @@ def run(ctx):
     jobs = [(s, m, f) for s in pool for (m, f) in modes]
     # (a) references: each job alone would be |jobs| interpreters; one fresh interpreter per SOURCE analysing only that source
     ref = {}
+    ref_sources = set(pool)
     try:
         for s in pool:
             outs = fresh([(s, m, f) for (m, f) in modes], 0)
@@ -158,6 +159,19 @@ def run(ctx):
                               f'tree of `{s[:100]}` after analysis differs from the removal pass alone', {'src': s, 'mode': m, 'fin': f})
     # (c) one of many functions in a file
     singles = [s for s in pool if s.count('int f') == 1 and s.strip().startswith('int f(')][:8]
+    # pairs whose first function fails partially / completely and whose second one has a loop of its own
+    extra_pairs = [('int f(int x1,int x2,int x0){ while (x1 < x2) { x0 = x1 + x2; } }',
+                    'int f(int n,int x0,int x1){ int i; for (i = 0; i < n; i++) { x0 = x0 + x1; } }'),
+                   ('int f(int a,int b){ while (a < b) { a = a * a; } }',
+                    'int f(int x,int y){ while (x < 1) { x = y + y; } }')]
+    for a_, b_ in extra_pairs:
+        for s_ in (a_, b_):
+            if s_ not in ref_sources:
+                outs = fresh([(s_, m, f) for (m, f) in modes], 0)
+                for (m, f), o in zip(modes, outs):
+                    ref[(s_, m, f)] = o
+                ref_sources.add(s_)
+        singles = [a_, b_] + singles
     for k in range(0, len(singles) - 1, 2):
         a, b = singles[k], singles[k + 1].replace('int f(', 'int g(', 1)
         both = a + '\n' + b
@@ -172,6 +186,14 @@ def run(ctx):
             if ga != ra.get(key, {}).get('f'):
                 ctx.violation({'kind': 'result-depends-on-other-functions'},
                               f'function f analysed in a two-function file differs from f alone ({m}, fin={f})', {'src': both, 'mode': m, 'fin': f})
+
+            def anon(d):
+                return {k: v for k, v in d.items() if k not in ('name', 'func_code')} if isinstance(d, dict) else d
+            gb = got.get(key, {}).get('g')
+            if anon(gb) != anon(rb.get(key, {}).get('f')):
+                ctx.violation({'kind': 'result-depends-on-other-functions', 'position': 'later'},
+                              f'the SECOND function of a two-function file differs from the same function alone ({m}, fin={f})',
+                              {'src': both, 'mode': m, 'fin': f})
     # (e) the file-level drivers against their Lean model (Mwp/Model/Run.lean): which functions / loops get a
     #     result, in which order, under which name, on which tree -- strict on/off, fin on/off
     if ctx.drv is not None:
